@@ -84,9 +84,14 @@ class Built:
 def build(samples, opts=None, name="Root", extra_models=None, merge=True, names=True):
     """samples -> final registry. extra_models: list of (name, samples) for further root models."""
     opts = norm_opts(opts)
-    sreg = make_sreg(opts["sreg"])
-    gen = MetadataGenerator(str_types_registry=sreg, dict_keys_regex=list(opts["dkr"]) or None,
-                            dict_keys_fields=list(opts["dkf"]) or None)
+    if opts.get("default_registry"):
+        # ordinary library use: no registry passed, the process-wide default one (int/float/bool strings) is used
+        sreg = dt.registry
+        gen = MetadataGenerator(dict_keys_regex=list(opts["dkr"]) or None, dict_keys_fields=list(opts["dkf"]) or None)
+    else:
+        sreg = make_sreg(opts["sreg"])
+        gen = MetadataGenerator(str_types_registry=sreg, dict_keys_regex=list(opts["dkr"]) or None,
+                                dict_keys_fields=list(opts["dkf"]) or None)
     reg = ModelRegistry(*make_cmps(opts["merge"]))
     roots = []
     for nm, smp in [(name, samples)] + list(extra_models or []):
